@@ -1035,7 +1035,7 @@ func (f *Frame) pureApply(c *Contract, fn *types.Func, recv Val, args []Val, st 
 	for i := 0; i < sig.Results().Len(); i++ {
 		rt := f.resolve(sig.Results().At(i).Type())
 		rs := in.sortOf(rt)
-		name := pureUFName(c, i)
+		name := pureUFName(c, i, sorts...)
 		in.D.declareFun(name, sorts, rs)
 		t := App(name, rs, ts...)
 		if rs == SInt {
@@ -1147,7 +1147,7 @@ func (f *Frame) pureAxiom(c *Contract, fn *types.Func, withRecv bool, ignored ma
 	for i := 0; i < sig.Results().Len(); i++ {
 		rt := f.resolve(sig.Results().At(i).Type())
 		rs := in.sortOf(rt)
-		name := pureUFName(c, i)
+		name := pureUFName(c, i, sorts...)
 		in.D.declareFun(name, sorts, rs)
 		t := App(name, rs, bvs...)
 		apps = append(apps, t)
@@ -1249,9 +1249,17 @@ func (f *Frame) runAsserts(ord int, st *State, call *ast.CallExpr) {
 // pureUFName: the function symbol of result i of a pure contract.  `opt uf NAME` lets several
 // interface methods that are implemented by one and the same concrete method (dsmr.Tx.GetID and
 // eheap.Item.GetID on the same transaction type) share a symbol.
-func pureUFName(c *Contract, i int) string {
+func pureUFName(c *Contract, i int, sorts ...string) string {
 	if u := strings.TrimSpace(c.Opts["uf"]); u != "" {
-		return fmt.Sprintf("uf_%s_%d", sanitize(u), i)
+		// one symbol per argument sort: the same concrete method reached through different
+		// interfaces shares it, values of different representations do not clash
+		suffix := ""
+		for _, s := range sorts {
+			if s != "Iface" {
+				suffix += "_" + sanitize(s)
+			}
+		}
+		return fmt.Sprintf("uf_%s%s_%d", sanitize(u), suffix, i)
 	}
 	return fmt.Sprintf("uf_%s_%d", sanitize(c.Pkg+"."+c.Name), i)
 }
